@@ -239,7 +239,7 @@ fn valid_line(rng: &mut Rng, kind: &str, b: u32, p: u32, probs: &[u128], infer: 
         let op = *rng.pick(&cs);
         line.push_str(" | ");
         line.push_str(op);
-        if b == 32 && ["tolookup", "togenlookup"].contains(&op) {
+        if b >= 32 && ["tolookup", "togenlookup"].contains(&op) {
             continue; // `unsupported`: model unchanged
         }
         cur = kind_after(&cur, op).to_string();
@@ -401,7 +401,7 @@ pub fn gen(rng: &mut Rng, tier: &str, out: &mut Vec<String>) {
             out.push(format!("cat.valsweep 8 {:x} 4 {} {}", p, infer, vals));
         }
     }
-    for &(b, ps) in &[(8u32, &[4u32, 7][..]), (16, &[1, 2, 12, 15, 16][..]), (32, &[1, 24, 31, 32][..])] {
+    for &(b, ps) in &[(8u32, &[4u32, 7][..]), (16, &[1, 2, 12, 15, 16][..]), (32, &[1, 24, 31, 32][..]), (64, &[1, 63, 64][..])] {
         for &p in ps {
             for infer in 0..2 {
                 let vals = show_list(boundary_vals(b, p));
@@ -414,11 +414,14 @@ pub fn gen(rng: &mut Rng, tier: &str, out: &mut Vec<String>) {
 
     // (B) every valid table with ≤ 4 symbols at P ≤ 4: all kinds, every symbol, every quantile
     for &(b, _) in BPS {
+        if b == 64 {
+            continue; // only (64, 1 | 24 | 63 | 64) are compiled in
+        }
         for p in 1..=4u32 {
             let tables = all_valid_tables(p, 4);
             for (ti, probs) in tables.iter().enumerate() {
                 for (ki, kind) in KINDS.iter().enumerate() {
-                    if b == 32 && kind.contains("lookup") {
+                    if b >= 32 && kind.contains("lookup") {
                         continue;
                     }
                     // quick: B = 8 complete; B = 16/32 every table but rotating kinds
@@ -441,7 +444,7 @@ pub fn gen(rng: &mut Rng, tier: &str, out: &mut Vec<String>) {
         for &p in ps {
             for i in 0..per_bp {
                 let kind = KINDS[(i + rng.next() as usize % 2) % 5];
-                if b == 32 && kind.contains("lookup") {
+                if b >= 32 && kind.contains("lookup") {
                     continue;
                 }
                 let maxn = pow2(p).min(if i % 4 == 0 { 300 } else { 24 });
@@ -463,7 +466,7 @@ pub fn gen(rng: &mut Rng, tier: &str, out: &mut Vec<String>) {
         for &p in ps {
             for i in 0..per_bp {
                 let kind = KINDS[i % 5];
-                if b == 32 && kind.contains("lookup") {
+                if b >= 32 && kind.contains("lookup") {
                     // still exercise the `unsupported` answer once in a while
                     if i % 3 != 0 {
                         continue;
@@ -506,6 +509,9 @@ pub fn gen(rng: &mut Rng, tier: &str, out: &mut Vec<String>) {
     out.push("cat.unisweep 10 10 0 40".to_string());
     out.push("cat.unisweep 10 f 0 40".to_string());
     out.push("cat.unisweep 20 c 0 40".to_string());
+    out.push("cat.unisweep 40 40 0 40".to_string());
+    out.push("cat.unisweep 40 3f 0 40".to_string());
+    out.push("cat.unisweep 40 1 0 6".to_string());
     out.push(format!("cat.unisweep 20 c {:x} {:x}", pow2(12) - 3, pow2(12) + 3));
     let n_uni = if thorough { 150 } else { 12 };
     for &(b, ps) in BPS {
@@ -524,6 +530,7 @@ pub fn gen(rng: &mut Rng, tier: &str, out: &mut Vec<String>) {
                     8 => (t / 3).max(2),
                     _ => 2 + rng.below(t.max(3) - 1),
                 };
+                let range = range & u64::MAX as u128; // a `usize`
                 let mut line = format!("cat.uniform {:x} {:x} {:x}", b, p, range);
                 let last = range.saturating_sub(1);
                 let mut syms = vec![0, 1, last.saturating_sub(1), last, last + 1, last + 2];
@@ -555,7 +562,7 @@ pub fn gen(rng: &mut Rng, tier: &str, out: &mut Vec<String>) {
                     if p <= 10 {
                         line.push_str(&format!(" | decsweep 0 {:x}", t));
                     }
-                    if range <= 300 && (b != 32) && p <= 12 {
+                    if range <= 300 && (b < 32) && p <= 12 {
                         line.push_str(" | togenlookup | table");
                         line.push_str(&format!(" | decs {}", show_list((0..4).map(|_| rng.below(t)))));
                     } else {
@@ -579,7 +586,7 @@ pub fn gen(rng: &mut Rng, tier: &str, out: &mut Vec<String>) {
     // (F) D13 glue: symbol counts vs weight counts in the `…_fast` constructors ------------
     for kind in ["dec", "enc", "lookup"] {
         for &(b, p) in &[(8u32, 3u32), (8, 8), (16, 12), (16, 16), (32, 24), (32, 32)] {
-            if kind == "lookup" && b == 32 {
+            if kind == "lookup" && b >= 32 {
                 continue;
             }
             for n in 0..=6usize {
